@@ -489,6 +489,10 @@ class DecimalFieldFormat(AbstractFieldFormat):
         return result
 
 
+#: Largest value the biggest SQL integer type (64 bit) can store.
+_MAX_SQL_BIGINT = 2**63 - 1
+
+
 class IntegerFieldFormat(AbstractFieldFormat):
     """
     Field format accepting numeric integer values (without fractional part).
@@ -581,6 +585,11 @@ class IntegerFieldFormat(AbstractFieldFormat):
                 limit = None
             else:
                 limit = max(sign_adjusted_limit(lower_limit), sign_adjusted_limit(upper_limit))
+                if limit > _MAX_SQL_BIGINT:
+                    # No integer type can store this, so describe it as decimal without fractional digits. Unlike
+                    # the sign adjusted limit this knows the exact number of digits needed: 999 takes 3, -1000 takes 4.
+                    digits = max(len(str(abs(lower_limit))), len(str(abs(upper_limit))))
+                    return "decimal", digits, 0
         return "int", limit
 
     def validated_value(self, value):
